@@ -2,7 +2,11 @@
 export GOFLAGS=-mod=mod GOPROXY=off
 unset GOSUMDB 2>/dev/null || true
 export VERIF_DIR=/verif
-export BUILD_DIR=/verif/.build
+# Development aid (seeded-change runs while /repo is in use): VERIF_REPO points the build at another
+# checkout of slip, VERIF_BUILD_DIR / VERIF_OUT keep its binaries and evidence apart. The registered
+# commands never set them: they build from /repo and write /verif/evidence.
+export VERIF_REPO=${VERIF_REPO:-/repo}
+export BUILD_DIR=${VERIF_BUILD_DIR:-/verif/.build}
 mkdir -p "$BUILD_DIR/scratch" /verif/evidence /verif/replays
 # /repo needs go >= 1.25: the default go switches to the cached go1.25.0 toolchain by itself
 # (GOTOOLCHAIN=auto); if that ever fails fall back to the cached toolchain binaries directly.
